@@ -28,7 +28,7 @@ func registerTests() {
 		evid.Spec{Name: "TestPropEveryCut", Kind: "rapid", Quick: 3200, Thorough: 64000, QuickShards: 16, ThoroughShards: 16},
 		evid.Spec{Name: "TestPropFullReaders", Kind: "rapid", Quick: 32, Thorough: 800, QuickShards: 8, ThoroughShards: 16},
 		evid.Spec{Name: "TestPropTwoParsers", Kind: "rapid", Quick: 2400, Thorough: 48000, QuickShards: 8, ThoroughShards: 16},
-		evid.Spec{Name: "TestPropTransport", Kind: "rapid", Quick: 48, Thorough: 1600, QuickShards: 16, ThoroughShards: 16},
+		evid.Spec{Name: "TestPropTransport", Kind: "rapid", Quick: 64, Thorough: 1600, QuickShards: 16, ThoroughShards: 16},
 	)
 	evid.Commands("obiconvert")
 	evid.Note("rule", "a file model (records with ids/definitions containing > @ + and JSON, IUPAC sequences in any case, qualities 0..93 with quality lines starting with @ or +, flat-file records with and without taxon cross-reference) is rendered as FASTA (fold 0..80, LF/CRLF, blank lines, with/without final EOL), strict FASTQ, GenBank or EMBL. chunks: for EVERY read-buffer size 2..len+2 (64 sampled sizes for files > 400 bytes) and a generated reader behaviour (whole reads, 1-byte reads, half reads, data+EOF, short-read schedule) the real ReadSeqFileChunk is drained: chunk numbers 0,1,2.., every chunk parses alone with the real chunk parser, the concatenation equals the model and every record equals the same record parsed on its own. readers: ReadFasta/ReadFastq on 1.1-3 MiB inputs with 1..8 parsing workers (+ push jitter): batches sorted by Order() are 0..n-1 and equal the model. two_parsers: Go state machines vs kseq on the same file. transport: obiconvert FILE / < FILE / cat FILE | / FILE.gz .bz2 .xz .zst give byte-identical output. multifile: 2..5 FASTA or FASTQ files (any of them empty), title lines of one style per file (free text / JSON annotations / legacy OBI key=value;): obiconvert F1..Fn, obiconvert cat(F1..Fn) and obiconvert < cat(F1..Fn) give the concatenation of the outputs of obiconvert Fi, --no-order (--max-cpu 1 and 8) the same multiset of records; non-trivial = at least two title styles and three records. Non-trivial (chunks) = >= 2 chunks and the first read ended strictly inside a record; distinct = hash(format, layout, #records, file length, buffer size, reader kind).")
@@ -581,12 +581,26 @@ type TransportCase struct {
 	Recs []Rec
 	L    Layout
 	Big  bool // pad the file beyond 1 MiB with extra records (several read chunks)
+	// HugeFirst > 0: the first record holds this many nucleotides (rebuilt here, not stored):
+	// longer than the 1 MiB the format detection and the first read chunk see
+	HugeFirst int
 }
 
 func init() { evid.Reg("transport", checkTransport) }
 
 func checkTransport(c TransportCase) error {
 	recs := c.Recs
+	if c.HugeFirst > 0 && len(recs) > 0 {
+		recs = append([]Rec{}, recs...)
+		unit := "acgtaggctatccgattacgcatgcatcgtagctagcatcgatcgatgcactgactgac"
+		recs[0].Seq = strings.Repeat(unit, c.HugeFirst/len(unit)+1)[:c.HugeFirst]
+		if c.L.Format == "fastq" {
+			recs[0].Qual = make([]int, c.HugeFirst)
+			for j := range recs[0].Qual {
+				recs[0].Qual[j] = (j*11 + 5) % 94
+			}
+		}
+	}
 	if c.Big {
 		extra := bigRecs(ReaderCase{Format: c.L.Format, NRec: 9000, SeqLen: 100})
 		recs = append(append([]Rec{}, recs...), extra...)
@@ -634,7 +648,7 @@ func checkTransport(c TransportCase) error {
 		return err
 	}
 	for _, k := range codec.Kinds {
-		if c.Big && k != "gzip" && k != "zstd" {
+		if (c.Big || c.HugeFirst > 0) && k != "gzip" && k != "zstd" {
 			continue // the slow codecs are exercised on the small files
 		}
 		z, err := codec.Compress(k, data)
@@ -685,9 +699,13 @@ func TestPropTransport(t *testing.T) {
 	rapid.Check(t, func(rt *rapid.T) {
 		var c TransportCase
 		format := rapid.SampledFrom(formats).Draw(rt, "format")
+		huge := rapid.IntRange(0, 5).Draw(rt, "huge_first") == 5
+		if huge {
+			format = rapid.SampledFrom([]string{"fastq", "fasta", "fastq"}).Draw(rt, "huge_format")
+		}
 		c.Recs = genRecs(rt, format, true)
 		c.L = genLayout(rt, format)
-		c.Big = (format == "fasta" || format == "fastq") && rapid.IntRange(0, 7).Draw(rt, "big") == 0
+		c.Big = !huge && (format == "fasta" || format == "fastq") && rapid.IntRange(0, 7).Draw(rt, "big") == 0
 		if (format == "fasta" || format == "fastq") && rapid.IntRange(0, 2).Draw(rt, "long_first") == 0 {
 			// a long read first: what the format detection sees of the file is one title line and part of a sequence line
 			n := rapid.IntRange(3000, 40000).Draw(rt, "long_first_len")
@@ -699,7 +717,13 @@ func TestPropTransport(t *testing.T) {
 				}
 			}
 		}
+		if huge {
+			c.HugeFirst = rapid.IntRange(1048000, 1700000).Draw(rt, "huge_first_len")
+		}
 		cl := append(layoutClasses(c.Recs, c.L), "transport")
+		if c.HugeFirst > 0 {
+			cl = append(cl, "transport_first_record_longer_than_1MiB")
+		}
 		if c.Big {
 			cl = append(cl, "transport_multi_chunk")
 		}
